@@ -37,7 +37,9 @@ def main():
         res["patched_out"] = out[-1500:]
         if do_base:
             os.remove(os.path.join(wt, place))
-            rc, out = sh("go test -json -vet=off -count=1 -timeout 25m ./... 2>/dev/null", wt)
+            # the 45 stable baseline tests live in these packages only (same command, restricted to them)
+            stable_pkgs = sorted({t.split("::")[0] for t in json.load(open("/root/.vp/BASELINE.json"))["stable_pass"]})
+            rc, out = sh("go test -json -vet=off -count=1 -timeout 25m " + " ".join(stable_pkgs) + " 2>/dev/null", wt)
             passed = set()
             for line in out.splitlines():
                 try:
